@@ -25,7 +25,7 @@ tvars == <<s, tid, l>>
 T == Traces[tid]
 
 TInit == /\ tid \in 1..N /\ l = 1
-         /\ s = InitState([noise |-> T.cfg.noise, exp |-> T.cfg.exp, login |-> T.cfg.login, K |-> T.cfg.K])
+         /\ s = InitState([noise |-> T.cfg.noise, exp |-> T.cfg.exp, login |-> T.cfg.login, K |-> T.cfg.K, hist |-> FALSE])
 
 \* virtual time moves to the row's instant; no armed timer may be skipped
 Advance(x, t) == IF t > x.now THEN [x EXCEPT !.now = t] ELSE x
@@ -48,6 +48,7 @@ Match(x, e) ==
   /\ x.cs = e.cs /\ x.ic = e.ic /\ x.sock = e.sock /\ x.tr = e.tr
   /\ (x.tr # "none" /\ ~x.cm) = e.pm            \* connection_made delivered to the helper
   /\ x.stops = e.sa
+  /\ Handlers(x) = e.nh /\ Waiters(x) = e.nw      \* nothing left registered (C11)
   /\ x.w = e.w
   /\ x.d = e.d
   /\ DoneMatch(x.dn, e.dn)
@@ -57,7 +58,8 @@ Diff(x, e) ==
   (IF x.cs # e.cs THEN {"cs"} ELSE {}) \cup (IF x.ic # e.ic THEN {"ic"} ELSE {}) \cup
   (IF x.sock # e.sock THEN {"sock"} ELSE {}) \cup (IF x.tr # e.tr THEN {"tr"} ELSE {}) \cup
   (IF (x.tr # "none" /\ ~x.cm) # e.pm THEN {"pm"} ELSE {}) \cup
-  (IF x.stops # e.sa THEN {"stops"} ELSE {}) \cup (IF x.w # e.w THEN {"w"} ELSE {}) \cup
+  (IF x.stops # e.sa THEN {"stops"} ELSE {}) \cup (IF Handlers(x) # e.nh THEN {"nh"} ELSE {}) \cup
+  (IF Waiters(x) # e.nw THEN {"nw"} ELSE {}) \cup (IF x.w # e.w THEN {"w"} ELSE {}) \cup
   (IF x.d # e.d THEN {"d"} ELSE {}) \cup (IF ~DoneMatch(x.dn, e.dn) THEN {"dn"} ELSE {}) \cup
   (IF e.q /\ ~TimersMatch(x, e.tm) THEN {"tm"} ELSE {})
 
@@ -65,9 +67,9 @@ Internal(x) ==
   {y \in
     (IF StartStepEnabled(x) THEN {StartStep(x)} ELSE {}) \cup
     (IF FinishStepEnabled(x) THEN {FinishStep(x)} ELSE {}) \cup
-    (IF FinishStepAltEnabled(x) THEN {FinishStepAlt(x)} ELSE {}) \cup
     (IF DiscStepEnabled(x) THEN {DiscStep(x)} ELSE {}) \cup
     UNION {IF CallStepEnabled(x, id) THEN {CallStep(x, id)} ELSE {} : id \in UserCalls} \cup
+    UNION {IF CallTimerFireEnabled(x, id) THEN {CallTimerFire(x, id)} ELSE {} : id \in CallIds} \cup
     (IF x.cm THEN {ConnMade(x)} ELSE {}) \cup
     (IF x.lost # "none" THEN {ConnLost(x)} ELSE {}) \cup
     (IF Due(x, "ping") THEN {PingFire(x)} ELSE {}) \cup
@@ -91,6 +93,7 @@ Apply(x, e) ==
     [] e.c = "SetWriteFail"   -> {SetWriteFail(x, e.a.b)}
     [] e.c = "UserCall"       -> {UserCall(x, e.a.id, e.a.mode, e.a.key)}
     [] e.c = "CancelCall"     -> {CancelCall(x, e.a.id)}
+    [] e.c = "UserSend"       -> {UserSend(x, e.a.n)}
     [] e.c = "UserSub"        -> {UserSub(x, e.a.id, e.a.kind, e.a.script)}
     [] e.c = "UserUnsub"      -> {UserUnsub(x, e.a.id)}
     \* a library callback: some enabled internal action, or a relay hop that changes
